@@ -34,6 +34,7 @@ func propC02(h History) error {
 	}
 	bk := newBook(h)
 	var ds []delivery
+	firstOf := map[uint32]int{} // sequence -> op of the first record of its most recent incarnation
 	inversion, seam, late := false, false, false
 	for i, o := range h.Ops {
 		st := &tr.Steps[i]
@@ -56,6 +57,10 @@ func propC02(h History) error {
 			first := i
 			if e := bk.pending[seq]; e != nil {
 				first = e.firstOp
+				firstOf[seq] = first
+			} else if f, again := firstOf[seq]; again {
+				// nothing was pushed for this sequence since it was delivered last: these are the records of then
+				first = f
 			}
 			d := delivery{op: i, firstOp: first, off: h.off(seq), seq: seq}
 			for _, p := range ds {
